@@ -35,7 +35,10 @@ def _get_composite_state_recur(
     topology = topology or {}
 
     state: dict = {}
-    all_keys = set(processes.keys() | steps.keys())
+    # in the order of declaration (processes, then steps): which of two
+    # competing initial values wins must not depend on the hash seed
+    all_keys = list(processes.keys()) + [
+        key for key in steps.keys() if key not in processes]
     for key in all_keys:
         sub_path: HierarchyPath = path + (key,)
         sub_topology: Any = topology.get(key)
